@@ -285,7 +285,7 @@ var c08KeyKinds = hx.Define("c08.key-kinds", func(c *c08NamedCase, s *hx.Sub) *h
 	b := map[string]any{
 		"sm": map[string]any{"A": "letter", "1": "digit", "true": "t"}, "ss": map[string]string{"A": "letter"},
 		"im": map[int]any{1: "one", 65: "sixtyfive"}, "u8": map[uint8]any{1: "one"}, "i8": map[int8]string{-1: "m1"},
-		"fm": map[float64]any{1.5: "x"}, "am": map[any]any{"A": "letter", 1: "one"},
+		"fm": map[float64]any{1.5: "x"}, "am": map[any]any{"A": "letter", 1: "one"}, "nam": map[any]any{hx.NamedString("b"): 5, "c": 6},
 		"ms": yaml.MapSlice{{Key: "size", Value: nil}, {Key: "b", Value: 1}}, "pm": map[string]any{"size": nil, "b": 1},
 		"i8v": int8(1), "u64v": uint64(1), "f19": 1.9, "i65": 65, "u257": uint16(257), "neg": -255, "t": true,
 	}
@@ -493,6 +493,7 @@ func TestC08(t *testing.T) {
 		{"u8[257]", ""}, {"u8[u257]", ""}, {"u8[-255]", ""}, {"u8[neg]", ""}, {"u8[1]", "one"}, {"u8[i8v]", "one"}, {"i8[255]", ""}, {"i8[-1]", "m1"},
 		{"fm[1.5]", "x"}, {"fm[1]", ""}, {`fm["1.5"]`, ""}, {"am[65]", ""}, {"am[1]", "one"}, {`am["A"]`, "letter"}, {"am.A", "letter"}, {"am[i8v]", "one"},
 		{"im.size", "2"}, {"u8.size", "1"}, {"i8.size", "1"}, {"fm.size", "1"}, {"am.size", "2"}, {"sm.size", "3"}, {"ss.size", "1"},
+		{"nam.b", "5"}, {`nam["b"]`, "5"}, {"nam.c", "6"}, {"nam.size", "2"}, {"nam.zz", ""},
 		{"ms.size", ""}, {"pm.size", ""}, {`ms["size"]`, ""}, {"ms.b", "1"}, {"pm.b", "1"},
 		{"sm contains 65", "false"}, {`sm contains "A"`, "true"}, {"im contains 1.9", "false"}, {"im contains 1", "true"}, {"im contains i8v", "true"}, {"u8 contains 257", "false"}, {"u8 contains 1", "true"}, {`im contains "1"`, "false"}, {"am contains i8v", "true"}, {"am contains 65", "false"},
 	} {
